@@ -23,6 +23,8 @@ def units(tier):
     u = [
         H("C18", M, "check_fork_exec", t, ["loky.backend.fork_exec:fork_exec"], "parent env 2 keys, overlay 2 keys (absent/''/values with '='), <=3 distinct fds, exec fails or not"),
         H("C18", M, "check_fork_exec_twice", t, ["loky.backend.fork_exec:fork_exec"], "two spawns with the same env= mapping, parent environment changed in between (2 keys x absent/2 values)"),
+        H("C18", "lokyverif.harness.c18_spawn", "check_popen_fork_failure", t, ["loky.backend.popen_loky_posix:Popen.__init__", "loky.backend.popen_loky_posix:Popen._launch"],
+          "fork/exec failing 0..2 times (EAGAIN / ENOMEM) before it succeeds; 0..1 extra inherited handle"),
         H("C18", M, "check_launch", t, ["loky.backend.popen_loky_posix:Popen._launch", "loky.backend.popen_loky_posix:Popen.duplicate_for_child"], "<=2 extra fds pickled in the process object, tracker fds, env overlay, init_main flag"),
         H("C18", M, "check_process_defaults", t, ["loky.backend.process:LokyProcess.__init__", "loky.backend.process:LokyInitMainProcess.__init__"], "both process classes"),
         H("C18", "lokyverif.harness.c12_tracker_ctl", "check_identity_inherited", t, ["loky.backend.spawn:get_preparation_data", "loky.backend.spawn:prepare"], "init_main flag symbolic"),
